@@ -10,7 +10,8 @@ RULE = ("frames built from: ALL ridge-connected cell subsets of small Voronoi/ar
         "random connected subsets of large ones (ragged borders, holes, bridges, single cells), 0..15 interior points per "
         "interface, random labels/orientations; shipped Surface Evolver dumps; meshes after generate_mesh; distinct = "
         "(cells, interfaces, internal interfaces, junctions, has-hole, points multiset); non-trivial = at least one interface"
-        ' Added after the seeded rounds: lattices (square, brick, hex, tri, fan, diamond, rosette), lens-shaped cells with two junctions.')
+        ' Added after the seeded rounds: lattices (square, brick, hex, tri, fan, diamond, rosette), lens-shaped cells with two junctions.'
+        ' Two-point lens sides, pendant cells.')
 MIN_DECISIVE = {"quick": 300, "thorough": 3000}
 REQUIRED_COUNTERS = ["post:Frame", "clause:paths", "clause:internal", "clause:own_cells", "clause:lookup"]
 TECHNIQUE = "runtime contract (icontract post-condition on Frame.__post_init__) against an independent topological oracle"
